@@ -103,6 +103,11 @@ theorem preInstall_priv (filter : Filter) (w : World) : (preInstall filter w).pr
   · rw [preInstall_off _ _ hn]
   · rw [preInstall_nnp _ _ hn]; rfl
 
+theorem preInstall_avail (filter : Filter) (w : World) : (preInstall filter w).seccompAvailable = w.seccompAvailable := by
+  cases hn : filter.noNewPrivs
+  · rw [preInstall_off _ _ hn]
+  · rw [preInstall_nnp _ _ hn]; rfl
+
 theorem preInstall_filters (filter : Filter) (w : World) (t : Tid) :
     ((preInstall filter w).thr t).filters = (w.thr t).filters := by
   cases hn : filter.noNewPrivs
@@ -231,4 +236,5 @@ theorem gen_supported_eq_spec (U : Unsupported) (w : World) :
   rw [show Gen.seccomp U 0 1 none w = ((Gen.seccomp U 0 1 none w).1, (Gen.seccomp U 0 1 none w).2) from rfl,
     gen_seccomp_world]
   unfold Gen.seccomp sysSeccomp
-  simp [SECCOMP_SET_MODE_STRICT, EINVAL]
+  cases ha : (schedStep w).seccompAvailable <;>
+    simp [SECCOMP_SET_MODE_STRICT, EINVAL, ENOSYS, ha]
